@@ -4,7 +4,9 @@
 //
 //   case <id> async <int|void|mo> <nExt>
 //   coro <i> <act>...        script of instance i (acts below)                      -> "def"
-//   new i | drop i | detach i | start i | fut i | fcoro i | startp i k | join i v | pool i
+//   new i | drop i | detach i | start i | fut i | fcoro i | startp i k | startpm i k (rvalue overload) | join i v | pool i
+//   startop i   start(promise) into the result future of an operation object (future + completion callback) whose
+//               only owner is the coroutine's own frame (held by its argument)
 //   set k v | exc k code | dropp k | tset k v | texc k code       (t*: from a second thread)
 //   end
 // acts: c | w<k> W<k> (await external future k; capital = exception not caught) | a<j> A<j> (co_await child)
@@ -36,8 +38,13 @@ struct act_t {
     long n;
 };
 
+struct holder {   // lives in the frame (member of the argument guard); may own an operation object
+    std::shared_ptr<void> op;
+};
+
 struct ctx {
     std::mutex mx;
+    std::map<int, std::weak_ptr<holder>> holders;
     std::vector<std::pair<std::pair<int, long>, std::string>> evs;   // ((kind, key), text)
     std::map<int, std::vector<act_t>> scripts;
     std::map<int, int> inst;   // 0 absent, 1 unstarted at top level, 2 consumed
@@ -90,8 +97,15 @@ struct guard {   // RAII guard; only the object that currently owns the token re
     int id;
     char tag;
     bool owner;
-    guard(int i, char t) : id(i), tag(t), owner(true) {}
-    guard(guard &&o) : id(o.id), tag(o.tag), owner(std::exchange(o.owner, false)) {}
+    std::shared_ptr<holder> keep;   // destroyed after the destructor body: with the frame
+    guard(int i, char t) : id(i), tag(t), owner(true) {
+        if (t == 'a') {
+            keep = std::make_shared<holder>();
+            std::lock_guard _(g_cx->mx);
+            g_cx->holders[i] = keep;
+        }
+    }
+    guard(guard &&o) : id(o.id), tag(o.tag), owner(std::exchange(o.owner, false)), keep(std::move(o.keep)) {}
     guard(const guard &) = delete;
     ~guard() {
         if (owner) g_cx->ev(tag == 'a' ? 5 : 4, id, std::string("~") + tag + std::to_string(id));
@@ -242,6 +256,32 @@ template <typename T> std::string outcome_of(future<T> &f) {
     }
 }
 
+// An "operation": result future + completion callback (an awaiter subscribed to that future). The coroutine's frame is
+// its only owner (through the holder in the argument guard), so it dies with the frame.
+static std::vector<void *> g_orphans;   // cores whose owner died while the future was pending: kept reachable, never freed
+template <typename T> struct opcore : awaiter {
+    future<T> result;
+    int id;
+    bool orphan = false;
+    explicit opcore(int i) : id(i) { set_resume_fn(&opcore::done); }
+    static suspend_point<void> done(awaiter *me, void *) noexcept {
+        auto self = static_cast<opcore *>(me);
+        g_cx->ev(10, self->id, "O" + std::to_string(self->id) + "=" + outcome_of(self->result) + (self->orphan ? "!late" : ""));
+        return {};
+    }
+};
+template <typename T> struct operation {
+    opcore<T> *core;
+    explicit operation(opcore<T> *c) : core(c) {}
+    operation(const operation &) = delete;
+    ~operation() {
+        bool rdy = core->result.ready();
+        g_cx->ev(11, core->id, "~o" + std::to_string(core->id) + (rdy ? "=ready" : "=pending"));
+        if (rdy) delete core;
+        else { core->orphan = true; g_orphans.push_back(core); }   // a pending future cannot be destroyed
+    }
+};
+
 static std::vector<act_t> parse_script(const std::vector<std::string> &w, std::size_t from) {
     std::vector<act_t> r;
     for (std::size_t i = from; i < w.size(); ++i) {
@@ -348,7 +388,7 @@ template <typename T> void run_case(std::istream &in, int next) {
             bool absent;
             { std::lock_guard _(cx.mx); absent = cx.inst[i] == 0; }
             if (!absent) head = "bad-op"; else obtain(i);
-        } else if (op == "drop" || op == "detach" || op == "start" || op == "fut" || op == "startp" || op == "join" || op == "pool") {
+        } else if (op == "drop" || op == "detach" || op == "start" || op == "fut" || op == "startp" || op == "startpm" || op == "startop" || op == "join" || op == "pool") {
             int i = (int)arg(1);
             async_t<T> *a = obtain(i);
             if (!a) head = "bad-op";
@@ -369,14 +409,26 @@ template <typename T> void run_case(std::istream &in, int next) {
                 std::atomic<bool> done{false};
                 pool->run_detached([&] { done.store(true); done.notify_all(); });
                 done.wait(false);
-            } else if (op == "startp") {
+            } else if (op == "startp" || op == "startpm") {
                 long k = arg(2);
                 if (k < 0 || k >= (long)wd.ext.size()) head = "bad-op";
                 else {
-                    bool r = a->start(*wd.ext[k].prom);
-                    head = std::string("startp ") + (r ? "1" : "0");
+                    // the two overloads of async::start(promise): lvalue and rvalue reference
+                    bool r = op == "startp" ? bool(a->start(*wd.ext[k].prom)) : bool(a->start(std::move(*wd.ext[k].prom)));
+                    head = op + (r ? " 1" : " 0");
                     if (r) { held.erase(i); consume(i); }
                 }
+            } else if (op == "startop") {
+                std::shared_ptr<holder> h;
+                { std::lock_guard _(cx.mx); h = cx.holders[i].lock(); }
+                auto core = new opcore<T>(i);
+                promise<T> p = core->result.get_promise();
+                core->result.subscribe(core);
+                h->op = std::make_shared<operation<T>>(core);   // the frame's argument is the only owner
+                h.reset();
+                bool r = a->start(p);
+                head = std::string("startop ") + (r ? "1" : "0");
+                held.erase(i); consume(i);
             } else {   // join: a second thread resolves every still unresolved external future with value v
                 long v = arg(2);
                 std::thread helper([&] {
